@@ -149,42 +149,212 @@ fn verdict_only<T>(f: impl FnOnce() -> anyhow::Result<T>) -> V {
 	call(f).0
 }
 
-fn lookups(rt: &tokio::runtime::Runtime, reader: &dyn versatiles_core::types::TilesReaderTrait, probes: &str) -> V {
+/// first disagreement between two answers for the same coordinate on the same (undamaged) container:
+/// repeated lookup (cached vs uncached path), concurrent lookup, reopened reader
+static INCONSISTENT: Mutex<String> = Mutex::new(String::new());
+fn note_inconsistent(what: &str, c: Coord, a: &str, b: &str) {
+	if let Ok(mut g) = INCONSISTENT.lock() {
+		if g.is_empty() {
+			*g = format!("{what}_{}/{}/{}_{a}_vs_{b}", c.0, c.1, c.2).replace(' ', "_");
+		}
+	}
+}
+
+type Digests = std::collections::BTreeMap<Coord, String>;
+
+fn digest_of(r: Result<anyhow::Result<Option<versatiles_core::types::Blob>>, String>) -> (V, String) {
+	match r {
+		Ok(Ok(None)) => (V::Ok, "none".into()),
+		Ok(Ok(Some(b))) => {
+			let mut h: u64 = 0xcbf29ce484222325;
+			for x in b.as_slice() {
+				h ^= *x as u64;
+				h = h.wrapping_mul(0x100000001b3);
+			}
+			(V::Ok, format!("some:{}:{h:x}", b.len()))
+		}
+		Ok(Err(_)) => (V::Err, "err".into()),
+		Err(_) => (V::Panic, "panic".into()),
+	}
+}
+
+/// A SEQUENCE of lookups on the one opened reader (the readers keep caches: versatiles block tile
+/// indexes, PMTiles leaf directories): the first coordinate three times in a row, then every probe
+/// (neighbours in the same block, other blocks, other levels, extreme coordinates), then all of them
+/// once more – after errors as well as after successes – and finally all probes from 4 threads at
+/// once.  Every single call must end with a value or an error; with `consistent` the answers for
+/// one coordinate must all be the same (cached = uncached = concurrent).
+fn lookups(rt: &tokio::runtime::Runtime, reader: &dyn versatiles_core::types::TilesReaderTrait, probes: &str, consistent: bool) -> (V, Digests) {
 	use versatiles_core::types::TileCoord3;
 	let mut worst = V::Ok;
-	// a SEQUENCE of lookups on the one opened reader (the readers keep caches: versatiles block tile
-	// indexes, PMTiles leaf directories): the first coordinate three times in a row, then every probe
-	// (neighbours in the same block, other blocks, other levels), then all of them once more – after
-	// errors as well as after successes; every single call must end with a value or an error
+	let mut seen: Digests = Digests::new();
 	let ps = parse_probes(probes);
 	let seq: Vec<Coord> = ps.iter().take(1).cycle().take(if ps.is_empty() { 0 } else { 2 }).chain(ps.iter()).chain(ps.iter()).copied().collect();
 	for (z, x, y) in seq {
-		let v = verdict_only(|| {
+		let (v, d) = digest_of(catch(|| {
 			let c = TileCoord3::new(x, y, z)?;
 			rt.block_on(reader.get_tile_data(&c))
-		});
+		}));
 		if v == V::Panic {
-			return V::Panic;
+			return (V::Panic, seen);
 		}
 		if v == V::Err {
 			worst = V::Err;
 		}
+		match seen.get(&(z, x, y)) {
+			Some(old) if consistent && *old != d => note_inconsistent("repeated_lookup", (z, x, y), old, &d),
+			Some(_) => {}
+			None => {
+				seen.insert((z, x, y), d);
+			}
+		}
+	}
+	// concurrent lookups on the one reader
+	if !ps.is_empty() {
+		let handle = rt.handle().clone();
+		let results: Vec<Vec<(Coord, V, String)>> = std::thread::scope(|sc| {
+			let hs: Vec<_> = (0..4usize)
+				.map(|t| {
+					let handle = handle.clone();
+					let ps = &ps;
+					sc.spawn(move || {
+						let mut out = vec![];
+						for i in 0..ps.len() {
+							let (z, x, y) = ps[(i + t * 3) % ps.len()];
+							let (v, d) = digest_of(catch(|| {
+								let c = TileCoord3::new(x, y, z)?;
+								handle.block_on(reader.get_tile_data(&c))
+							}));
+							out.push(((z, x, y), v, d));
+						}
+						out
+					})
+				})
+				.collect();
+			hs.into_iter().map(|h| h.join().unwrap_or_else(|_| vec![((0, 0, 0), V::Panic, "panic".into())])).collect()
+		});
+		for (c, v, d) in results.into_iter().flatten() {
+			if v == V::Panic {
+				return (V::Panic, seen);
+			}
+			if consistent {
+				if let Some(old) = seen.get(&c) {
+					if *old != d {
+						note_inconsistent("concurrent_lookup", c, old, &d);
+					}
+				}
+			}
+		}
 	}
 	// the metadata and parameters accessors must work on whatever was opened
 	if verdict_only(|| Ok((reader.get_tilejson().as_string(), reader.get_parameters().bbox_pyramid.count_tiles()))) == V::Panic {
-		return V::Panic;
+		return (V::Panic, seen);
 	}
-	worst
+	(worst, seen)
 }
 
-fn open_and_look<R: versatiles_core::types::TilesReaderTrait>(rt: &tokio::runtime::Runtime, probes: &str, open: impl FnOnce() -> anyhow::Result<R>) -> V {
-	match call(open) {
-		(V::Ok, Some(r)) => match lookups(rt, &r, probes) {
-			V::Panic => V::Panic,
-			_ => V::Ok,
-		},
-		(v, _) => v,
+/// damage applied to the file AFTER a reader has opened it (and warmed its caches):
+/// `t<k>` truncate to k bytes, `z` overwrite with zeros, `g` overwrite with 0xAA, `x<k>` append k zero
+/// bytes, `d` delete.  (probes string: `<damage>|<probes>`)
+fn apply_damage(path: &Path, spec: &str) {
+	let len = std::fs::metadata(path).map(|m| m.len() as usize).unwrap_or(0);
+	let arg: usize = spec[1..].parse().unwrap_or(0);
+	if path.is_dir() {
+		// a directory container: remove or empty the tile files
+		fn walk(p: &Path, f: &dyn Fn(&Path)) {
+			if let Ok(rd) = std::fs::read_dir(p) {
+				for e in rd.flatten() {
+					let q = e.path();
+					if q.is_dir() {
+						walk(&q, f);
+					} else {
+						f(&q);
+					}
+				}
+			}
+		}
+		match &spec[..1] {
+			"d" => walk(path, &|q| {
+				let _ = std::fs::remove_file(q);
+			}),
+			_ => walk(path, &|q| {
+				let _ = std::fs::write(q, b"");
+			}),
+		}
+		return;
 	}
+	match &spec[..1] {
+		"t" => {
+			if let Ok(f) = std::fs::OpenOptions::new().write(true).open(path) {
+				let _ = f.set_len(arg.min(len) as u64);
+			}
+		}
+		"z" => {
+			let _ = std::fs::write(path, vec![0u8; len]);
+		}
+		"g" => {
+			let _ = std::fs::write(path, vec![0xAAu8; len]);
+		}
+		"x" => {
+			if let Ok(mut f) = std::fs::OpenOptions::new().append(true).open(path) {
+				let _ = f.write_all(&vec![0u8; arg]);
+			}
+		}
+		_ => {
+			let _ = std::fs::remove_file(path);
+		}
+	}
+}
+
+fn open_and_look<R: versatiles_core::types::TilesReaderTrait>(rt: &tokio::runtime::Runtime, probes: &str, path: Option<&Path>, open: impl Fn() -> anyhow::Result<R>) -> V {
+	let (damage, probes) = match probes.split_once('|') {
+		Some((d, p)) => (Some(d), p),
+		None => (None, probes),
+	};
+	let r1 = match call(&open) {
+		(V::Ok, Some(r)) => r,
+		(v, _) => return v,
+	};
+	let (v1, d1) = lookups(rt, &r1, probes, true);
+	if v1 == V::Panic {
+		return V::Panic;
+	}
+	if let (Some(spec), Some(p)) = (damage, path) {
+		if !spec.is_empty() {
+			// fault after open: the same reader (warm caches) on a file that changed underneath
+			apply_damage(p, spec);
+			if lookups(rt, &r1, probes, false).0 == V::Panic {
+				return V::Panic;
+			}
+		}
+	}
+	// a second reader on the same source: must open (or fail) without a panic; on an undamaged source it
+	// must give the same answers as the first one
+	match call(&open) {
+		(V::Panic, _) => return V::Panic,
+		(V::Ok, Some(r2)) => {
+			let (v2, d2) = lookups(rt, &r2, probes, damage.is_none());
+			if v2 == V::Panic {
+				return V::Panic;
+			}
+			if damage.is_none() {
+				for (c, a) in &d1 {
+					if let Some(b) = d2.get(c) {
+						if a != b {
+							note_inconsistent("reopened_reader", *c, a, b);
+						}
+					}
+				}
+			}
+		}
+		(V::Ok, None) => {}
+		(V::Err, _) => {
+			if damage.is_none() {
+				note_inconsistent("reopen_failed", (0, 0, 0), "opened", "err");
+			}
+		}
+	}
+	V::Ok
 }
 
 fn safe_rel(name: &[u8]) -> Option<PathBuf> {
@@ -272,7 +442,7 @@ pub fn eval(ctx: &mut Ctx, c: &Case) -> V {
 			let p = ctx.fresh(".vpl");
 			std::fs::write(&p, b).unwrap();
 			let rt = &ctx.rt;
-			let v = open_and_look(rt, &c.probes, || rt.block_on(versatiles_container::PipelineReader::open_path(&p)));
+			let v = open_and_look(rt, &c.probes, Some(&p), || rt.block_on(versatiles_container::PipelineReader::open_path(&p)));
 			let _ = std::fs::remove_file(&p);
 			v
 		}
@@ -317,17 +487,17 @@ pub fn eval(ctx: &mut Ctx, c: &Case) -> V {
 		}
 		"vt" => {
 			let rt = &ctx.rt;
-			open_and_look(rt, &c.probes, || rt.block_on(VersaTilesReader::open_reader(Box::new(DataReaderBlob::from(b.clone())))))
+			open_and_look(rt, &c.probes, None, || rt.block_on(VersaTilesReader::open_reader(Box::new(DataReaderBlob::from(b.clone())))))
 		}
 		"pm" => {
 			let rt = &ctx.rt;
-			open_and_look(rt, &c.probes, || rt.block_on(PMTilesReader::open_reader(Box::new(DataReaderBlob::from(b.clone())))))
+			open_and_look(rt, &c.probes, None, || rt.block_on(PMTilesReader::open_reader(Box::new(DataReaderBlob::from(b.clone())))))
 		}
 		"vtfile" => {
 			let p = ctx.fresh(".versatiles");
 			std::fs::write(&p, b).unwrap();
 			let rt = &ctx.rt;
-			let v = open_and_look(rt, &c.probes, || rt.block_on(VersaTilesReader::open_path(&p)));
+			let v = open_and_look(rt, &c.probes, Some(&p), || rt.block_on(VersaTilesReader::open_path(&p)));
 			let _ = std::fs::remove_file(&p);
 			v
 		}
@@ -335,21 +505,21 @@ pub fn eval(ctx: &mut Ctx, c: &Case) -> V {
 			let p = ctx.fresh(".pmtiles");
 			std::fs::write(&p, b).unwrap();
 			let rt = &ctx.rt;
-			let v = open_and_look(rt, &c.probes, || rt.block_on(PMTilesReader::open_path(&p)));
+			let v = open_and_look(rt, &c.probes, Some(&p), || rt.block_on(PMTilesReader::open_path(&p)));
 			let _ = std::fs::remove_file(&p);
 			v
 		}
 		"mb" => {
 			let p = ctx.fresh(".mbtiles");
 			std::fs::write(&p, b).unwrap();
-			let v = open_and_look(&ctx.rt, &c.probes, || MBTilesReader::open_path(&p));
+			let v = open_and_look(&ctx.rt, &c.probes, Some(&p), || MBTilesReader::open_path(&p));
 			let _ = std::fs::remove_file(&p);
 			v
 		}
 		"tar" => {
 			let p = ctx.fresh(".tar");
 			std::fs::write(&p, b).unwrap();
-			let v = open_and_look(&ctx.rt, &c.probes, || TarTilesReader::open_path(&p));
+			let v = open_and_look(&ctx.rt, &c.probes, Some(&p), || TarTilesReader::open_path(&p));
 			let _ = std::fs::remove_file(&p);
 			v
 		}
@@ -373,7 +543,7 @@ pub fn eval(ctx: &mut Ctx, c: &Case) -> V {
 					}
 				}
 			}
-			let v = open_and_look(&ctx.rt, &c.probes, || DirectoryTilesReader::open_path(&root));
+			let v = open_and_look(&ctx.rt, &c.probes, Some(&root), || DirectoryTilesReader::open_path(&root));
 			let _ = std::fs::remove_dir_all(&root);
 			v
 		}
@@ -400,6 +570,9 @@ fn factory(dir: &Path) -> versatiles_pipeline::PipelineFactory {
 static CUR_START_MS: AtomicU64 = AtomicU64::new(0);
 static CUR_IDX: AtomicU64 = AtomicU64::new(u64::MAX);
 const CASE_TIMEOUT_MS: u64 = 10_000;
+fn case_timeout_ms() -> u64 {
+	std::env::var("C19_TIMEOUT_MS").ok().and_then(|s| s.parse().ok()).unwrap_or(CASE_TIMEOUT_MS)
+}
 
 fn now_ms() -> u64 {
 	std::time::SystemTime::now().duration_since(std::time::UNIX_EPOCH).unwrap().as_millis() as u64
@@ -419,11 +592,12 @@ pub fn child(args: &Args) {
 	let mut ctx = Ctx::new(&args.out);
 	let text = std::fs::read_to_string(batch).unwrap();
 	let stdout = std::io::stdout();
-	std::thread::spawn(|| loop {
+	let limit_ms = case_timeout_ms();
+	std::thread::spawn(move || loop {
 		std::thread::sleep(std::time::Duration::from_millis(200));
 		let idx = CUR_IDX.load(Ordering::SeqCst);
 		let st = CUR_START_MS.load(Ordering::SeqCst);
-		if idx != u64::MAX && st != 0 && now_ms().saturating_sub(st) > CASE_TIMEOUT_MS {
+		if idx != u64::MAX && st != 0 && now_ms().saturating_sub(st) > limit_ms {
 			println!("{idx} timeout");
 			let _ = std::io::stdout().flush();
 			std::process::exit(3);
@@ -447,13 +621,25 @@ pub fn child(args: &Args) {
 		if let Ok(mut g) = LAST_PANIC.lock() {
 			g.clear();
 		}
+		if let Ok(mut g) = INCONSISTENT.lock() {
+			g.clear();
+		}
 		alloc_count::begin();
 		let v = eval(&mut ctx, &c);
 		let u: Usage = alloc_count::end();
 		CUR_IDX.store(u64::MAX, Ordering::SeqCst);
-		let site = if v == V::Panic { LAST_PANIC.lock().map(|g| g.clone()).unwrap_or_default() } else { "-".into() };
+		let mut site = if v == V::Panic { LAST_PANIC.lock().map(|g| g.clone()).unwrap_or_default() } else { "-".into() };
+		let mut verdict = v.s();
+		if v != V::Panic {
+			if let Ok(g) = INCONSISTENT.lock() {
+				if !g.is_empty() {
+					verdict = "inconsistent";
+					site = g.split('_').take(2).collect::<Vec<_>>().join("_") + ":" + &g.chars().take(120).collect::<String>();
+				}
+			}
+		}
 		let mut o = stdout.lock();
-		writeln!(o, "{idx} res {} {} {} {} {}", v.s(), u.max_single, u.peak, u.count, if site.is_empty() { "?" } else { &site }).unwrap();
+		writeln!(o, "{idx} res {} {} {} {} {}", verdict, u.max_single, u.peak, u.count, if site.is_empty() { "?" } else { &site }).unwrap();
 		o.flush().unwrap();
 	}
 	let _ = std::fs::remove_dir_all(&ctx.dir);
@@ -589,10 +775,11 @@ fn record(out: &mut Out, c: &Case, a: &Answer) {
 		out.oracle(true, "", json!(null), json!(null));
 	} else {
 		let kind = a.verdict.as_str();
+		let (sig_site, full_site) = if kind == "inconsistent" { (a.site.split(':').next().unwrap_or("").to_string(), a.site.clone()) } else { (a.site.clone(), a.site.clone()) };
 		out.oracle(
 			false,
-			&format!("C19 {kind}: entry point {} {} at {}", c.ep, match kind { "panic" => "panics", "abort" => "aborts the process", "segv" => "kills the process (stack overflow / SIGSEGV)", "timeout" => "does not return within 10 s", _ => "dies" }, a.site),
-			json!({"ep": c.ep, "kind": kind, "site": a.site}),
+			&format!("C19 {kind}: entry point {} {} at {}", c.ep, match kind { "panic" => "panics", "abort" => "aborts the process", "segv" => "kills the process (stack overflow / SIGSEGV)", "timeout" => "does not return within 10 s (and not within 60 s when run alone)", "inconsistent" => "gives two different answers for one coordinate of one undamaged container", _ => "dies" }, full_site),
+			json!({"ep": c.ep, "kind": kind, "site": sig_site}),
 			json!({"case": short(c), "class": c.class, "input_bytes": c.input.len()}),
 		);
 	}
@@ -632,7 +819,7 @@ non-trivial = derived from a valid encoding or structured generator (everything 
 		let mut start = 0usize;
 		while start < cases.len() {
 			let heavy = |c: &Case| c.ep == "mb";
-			let cap = if heavy(&cases[start]) { 8 } else { 400 };
+			let cap = if heavy(&cases[start]) { 5 } else { 400 };
 			let mut end = start;
 			while end < cases.len() && end - start < cap && heavy(&cases[end]) == heavy(&cases[start]) {
 				end += 1;
@@ -659,6 +846,23 @@ non-trivial = derived from a valid encoding or structured generator (everything 
 	});
 	for (i, a) in results.into_inner().unwrap() {
 		answers[i] = a;
+	}
+	// a watchdog timeout under load is not a verdict: such a case is run again, alone, with a 60 s
+	// watchdog; only a repeated timeout is reported
+	let mut retried = 0u64;
+	for (ci, chunk) in chunks.iter().enumerate() {
+		for (k, c) in chunk.iter().enumerate() {
+			if answers[ci][k].verdict == "timeout" {
+				std::env::set_var("C19_TIMEOUT_MS", "60000");
+				let a = run_batch(&exe, &dir, &format!("retry{ci}_{k}"), std::slice::from_ref(c));
+				std::env::remove_var("C19_TIMEOUT_MS");
+				answers[ci][k] = a.into_iter().next().unwrap();
+				retried += 1;
+			}
+		}
+	}
+	if retried > 0 {
+		out.notes.push(format!("{retried} case(s) hit the 10 s watchdog in a batch and were re-run alone with a 60 s watchdog"));
 	}
 	for (chunk, ans) in chunks.iter().zip(answers.iter()) {
 		for (c, a) in chunk.iter().zip(ans.iter()) {
